@@ -67,6 +67,7 @@ type Parser struct {
 	headerValue   string
 	header        http.Header
 	trailer       http.Header
+	trailerSeen   map[string]struct{}
 	contentLength int
 	chunkSize     int
 
@@ -671,10 +672,17 @@ UPGRADER:
 					// a trailer value may contain blanks, only trim the trailing ones.
 					p.headerValue = strings.TrimRight(string(data[start:i]), " \t")
 				}
-				if len(p.trailer) == 0 {
+				if _, outstanding := p.trailer[p.headerKey]; outstanding {
+					delete(p.trailer, p.headerKey)
+					if p.trailerSeen == nil {
+						p.trailerSeen = map[string]struct{}{}
+					}
+					p.trailerSeen[p.headerKey] = struct{}{}
+				} else if _, again := p.trailerSeen[p.headerKey]; !again && len(p.trailer) == 0 {
+					// a declared field may come more than once, also behind
+					// the last outstanding one.
 					return fmt.Errorf("invalid trailer '%v'", p.headerKey)
 				}
-				delete(p.trailer, p.headerKey)
 
 				p.Processor.OnTrailerHeader(p, p.headerKey, p.headerValue)
 				start = i + 1
@@ -833,6 +841,7 @@ func (p *Parser) handleMessage() {
 	p.chunked = false
 	p.header = nil
 	p.trailer = nil
+	p.trailerSeen = nil
 
 	if !p.isClient {
 		p.nextState(stateMethodBefore)
